@@ -664,6 +664,10 @@ def _split_msh(content):
         if len(seps) > len(set(seps)):
             raise InvalidEncodingChars("Found duplicate encoding chars")
 
+        if any(c.isspace() for c in seps):
+            # as the field separator (see the regular expression above) the other ones can't be blanks
+            raise InvalidEncodingChars("Found a blank among the encoding chars")
+
         try:
             comp_sep, rep_sep, escape, sub_sep = seps
             trunc_sep = None
